@@ -37,8 +37,8 @@ fn tmproot(what: &str) -> PathBuf {
 
 /// lines the payloads are made of: plain text (few, so that repeats occur), trailing blanks, wildcard characters,
 /// control bytes, ANSI sequences, non-ASCII and invalid UTF-8, and lines shaped like document syntax
-const LINES: [&[u8]; 34] = [
-    b"x", b"x", b"foo", b"foo", b"foo ", b"foo  ", b"bar", b"alpha", b"beta gamma", b"line 3", b"  indented", b"", b"0123",
+const LINES: [&[u8]; 37] = [
+    b"C:\\Users\\me", b"a\\bc", b"total: *", b"x", b"x", b"foo", b"foo", b"foo ", b"foo  ", b"bar", b"alpha", b"beta gamma", b"line 3", b"  indented", b"", b"0123",
     b"a*b", b"what?", b"back\\slash", b"tab\there", b"bell\x07", b"esc \x1b[1mbold\x1b[0m", b"caf\xc3\xa9", b"\xe2\x9c\x93 ok",
     b"bad \xff byte", b"foo (glob)", b"bar (?)", b"baz (no-eol)", b"[3]", b"$ dollar", b"> greater", b"# hash", b"cr\rmid",
     b"``` ticks", b"x (escaped)", b"y (esc)", b"tail\\",
@@ -270,6 +270,21 @@ fn globbed(rng: &mut Rng, exp: &str) -> String {
     }
     let cs: Vec<char> = exp.chars().collect();
     let at = rng.below(cs.len() as u64) as usize;
+    // a backslash directly in front of a wildcard: literal backslash + wildcard for the Markdown glob (wildmatch),
+    // an escaped wildcard for the Cram glob -- which rule a document gets must not depend on other documents of the run
+    if let Some(bs) = cs.iter().position(|c| *c == '\\') {
+        if rng.chance(1, 2) {
+            let pre: String = cs[..=bs].iter().collect();
+            return match rng.below(3) {
+                0 => format!("{pre}* (glob)"),
+                1 => format!("{pre}?{} (glob)", cs[(bs + 2).min(cs.len())..].iter().collect::<String>()),
+                _ => format!("{pre}\\* (glob)"),
+            };
+        }
+    }
+    if exp == "total: *" && rng.chance(1, 2) {
+        return "total: \\* (glob)".to_string();
+    }
     let pat: String = match rng.below(6) {
         0 => format!("{}?{}", cs[..at].iter().collect::<String>(), cs[at + 1..].iter().collect::<String>()),
         1 => format!("{}*", cs[..at].iter().collect::<String>()),
@@ -548,10 +563,23 @@ struct RanDoc {
 
 /// `scrut test -r json <doc>` in `dir` (private TMPDIR `dir/tmp`)
 fn run_binary(dir: &Path, doc_path: &Path) -> RanDoc {
+    run_binary_after(dir, doc_path, false)
+}
+
+/// `cram_first`: a (passing) Cram document with a glob expectation is given in front of the document in the same
+/// run; its result is not part of the comparison, and it must not change how the Markdown document is read
+fn run_binary_after(dir: &Path, doc_path: &Path, cram_first: bool) -> RanDoc {
+    let mut pre: Vec<PathBuf> = vec![];
+    if cram_first {
+        let p = dir.join("pre.t");
+        std::fs::write(&p, "a Cram document first\n  $ echo 'star * here'\n  star \\* h* (glob)\n").unwrap();
+        pre.push(p);
+    }
     let out = std::process::Command::new(scrut_bin())
         .arg("test")
         .arg("-r")
         .arg("json")
+        .args(&pre)
         .arg(doc_path)
         .current_dir(dir)
         .env("TMPDIR", dir.join("tmp"))
@@ -575,8 +603,10 @@ fn run_binary(dir: &Path, doc_path: &Path) -> RanDoc {
                     } else {
                         kind
                     };
-                    (title.strip_prefix('T').and_then(|r| r.parse::<usize>().ok()), kind)
+                    (title.to_string(), title.strip_prefix('T').and_then(|r| r.parse::<usize>().ok()), kind)
                 })
+                .filter(|(title, _, _)| !(cram_first && title == "a Cram document first"))
+                .map(|(_, i, k)| (i, k))
                 .collect(),
         ),
         _ => None,
@@ -612,7 +642,8 @@ fn case(prop: &str, seed: u64, idx: u64, root: &Path, name: String, verbose: boo
     let doc = render_doc(&d, &dir);
     let doc_path = dir.join("doc.md");
     std::fs::write(&doc_path, &doc).unwrap();
-    let ran = run_binary(&dir, &doc_path);
+    // every third document is run behind a Cram document in the same process
+    let ran = run_binary_after(&dir, &doc_path, idx % 3 == 1);
     if verbose {
         println!("document {}:\n{}\n--", doc_path.display(), String::from_utf8_lossy(&doc));
         for (k, t) in d.tests.iter().enumerate() {
